@@ -29,12 +29,13 @@ func main() {
 	replay := flag.String("replay", "", "replay file")
 	child := flag.Bool("child", false, "run as the proxy child process of the hostile-input experiment")
 	childMem := flag.Int64("child-mem", 0, "child: address-space limit in bytes (0 = none)")
+	childNoFile := flag.Int("child-nofile", 0, "child: run one plain proxy and cap the descriptor table at this many (0 = full child)")
 	childRHT := flag.Duration("child-read-header-timeout", 0, "child: read header timeout (0 = forwarder's default)")
 	lits := flag.String("status-literals", "400", "comma separated ErrorStatus literals found in the sources")
 	flag.Parse()
 
 	if *child {
-		fr.HostileChild(*childMem, *childRHT)
+		fr.HostileChild(*childMem, *childRHT, *childNoFile)
 		return
 	}
 	self, _ := os.Executable()
